@@ -5438,6 +5438,11 @@ class PyCdlib:
             # Rule 9
             raise pycdlibexception.PyCdlibInvalidInput('A Joliet path can only be specified for a Joliet ISO')
 
+        rr_symlink_name_bytes = b''
+        if rr_symlink_name is not None:
+            # The name of a symlink obeys the rules of any Rock Ridge name.
+            rr_symlink_name_bytes = self._check_rr_name(rr_symlink_name)
+
         if rr_path == '' or udf_target == '':
             # An empty target would be recorded as a plain empty file (Rock
             # Ridge) or as a link to the root directory (UDF).
@@ -5464,7 +5469,6 @@ class PyCdlib:
                 # We specifically do *not* normalize rr_path here, since that
                 # potentially changes the meaning of what the user wanted.
 
-                rr_symlink_name_bytes = rr_symlink_name.encode('utf-8')
                 rec.new_symlink(self.pvd, name, parent, rr_path.encode('utf-8'),
                                 self.pvd.sequence_number(), self.rock_ridge,
                                 rr_symlink_name_bytes, self.xa, time.time())
